@@ -48,6 +48,10 @@ OF OR IN CONNECTION WITH THE SOFTWARE OR THE USE OR OTHER DEALINGS IN THE SOFTWA
 
 #include <common/ReportUtils.h>
 
+#ifdef OPENSMT_VERIF
+#include <common/VerifTrace.h>
+#endif
+
 //=================================================================================================
 // Constructor/Destructor:
 
@@ -280,6 +284,9 @@ bool SimpSMTSolver::strengthenClause(CRef cr, Lit l)
         n_occ[toInt(l)]--;
         updateElimHeap(var(l));
     }
+#ifdef OPENSMT_VERIF
+    veriftrace::clause("d", static_cast<void const *>(&theory_handler), c);
+#endif
 
     return c.size() == 1 ? enqueue(c[0]) && propagate() == CRef_Undef : true;
 }
@@ -619,6 +626,9 @@ bool SimpSMTSolver::eliminateVar(Var v)
         for (int j = 0; j < neg.size(); j++) {
             vec<Lit> resolvent;
             pair<CRef,CRef> dummy {CRef_Undef, CRef_Undef};
+#ifdef OPENSMT_VERIF
+            VerifDerivedScope verifScope(*this); // the resolvent is traced as a derived clause
+#endif
             if (merge(ca[pos[i]], ca[neg[j]], v, resolvent) && !addOriginalSMTClause(std::move(resolvent), dummy))
                 return false;
         }
@@ -661,6 +671,9 @@ bool SimpSMTSolver::substitute(Var v, Lit x)
         removeClause(cls[i]);
 
         pair<CRef,CRef> dummy {CRef_Undef, CRef_Undef};
+#ifdef OPENSMT_VERIF
+        VerifDerivedScope verifScope(*this);
+#endif
         if (!addOriginalSMTClause(std::move(subst_clause), dummy))
             return ok = false;
     }
